@@ -247,6 +247,9 @@ class REPEX_state:
             self.swap(traj_idx, ens)
             self.lock(ens)
             trajs.append(self._trajs[ens])
+        # the re-issued job is in flight again: keep it in the record that
+        # write_toml() saves, as pick() does for a fresh job.
+        self.locked.append((enss, trajs0))
         if self.printing():
             self.print_pick(tuple(enss), tuple(trajs0), self.cworker)
         picked = {}
